@@ -568,4 +568,41 @@ and FEWER than 144 after reverts (the deleted elements do not come back) — hen
 example : (idxLens {} (lin 150 ++ linRev 150 3)).drop 143 = [144, 145, 144, 144, 144, 144, 144, 143, 142, 141] := by
   decide +kernel
 
+/-! ### the getter `contracts.Manager.V2FileContractElement` (Store.V2ContractElement)
+
+It returns the stored element of a contract together with the basis the caller has to hand to the pool
+(`last_scanned_index`).  Read from ONE store state (one query joining `global_settings`), the pair is a snapshot:
+under the invariant the returned element verifies against the returned basis.  Read from two store states — element
+first, basis after the indexer committed another batch — it is torn. -/
+
+/-- the pair as read from one store state (the chain `stk` is what `last_scanned_index` stands for) -/
+def getElem (stk : List CBlock) (s : EState) (c : Nat) : Option (Nat × Elem) :=
+  (s.con.find? (fun x => x.c == c)).map fun x => (tipOf stk, x.e)
+
+/-- the pair when the element is read from one store state and the basis from a later one -/
+def getElemTorn (s1 : EState) (stk2 : List CBlock) (c : Nat) : Option (Nat × Elem) :=
+  (s1.con.find? (fun x => x.c == c)).map fun x => (tipOf stk2, x.e)
+
+/-- **C17, getter.**  The (basis, element) pair read from one store state is a snapshot: the element's proof is
+not corrupt and verifies against exactly the returned basis. -/
+theorem C17_getter_snapshot {M : Nat} {stk : List CBlock} {s : EState} (hi : EInv M stk s) {c b : Nat} {e : Elem}
+    (h : getElem stk s c = some (b, e)) : e.basis = b ∧ e.corrupt = false := by
+  simp only [getElem, Option.map_eq_some_iff] at h
+  obtain ⟨x, hx, hxe⟩ := h
+  have hm : x ∈ s.con := List.mem_of_find?_eq_some hx
+  obtain ⟨h1, h2, _⟩ := hi.conSound x hm
+  cases hxe
+  exact ⟨h2, h1⟩
+
+/-- the torn shape: contract 7 is confirmed in block 2; the element is read, the indexer commits block 3, the basis
+is read: the pair names basis 3 but the proof verifies against 2 -/
+theorem C17_getter_torn_witness :
+    let g : CBlock := ⟨0, 1, 0, []⟩
+    let a : CBlock := ⟨1, 2, 1, [7]⟩
+    let b : CBlock := ⟨2, 3, 2, []⟩
+    ∃ s1 s2, runE {} [.apply g, .apply a] = .ok s1 ∧ runE s1 [.apply b] = .ok s2 ∧
+      getElem [a, g] s1 7 = some (2, ⟨2, 2, false⟩) ∧ getElem [b, a, g] s2 7 = some (3, ⟨3, 2, false⟩) ∧
+      getElemTorn s1 [b, a, g] 7 = some (3, ⟨2, 2, false⟩) := by
+  refine ⟨_, _, rfl, rfl, ?_, ?_, ?_⟩ <;> decide
+
 end Hostd.Wallet
